@@ -126,9 +126,148 @@ def work(name, src, payload):
 
     def fail(key, what, **kw):
         from contracts.b_lib import room
+        if key.startswith('SEQ-FIRST:'):
+            return     # the first edit of a sequence was already judged on its own
         ok, kn = room(failures, f'C04.B.{key}', 10)
         if ok:
             failures.append(dict(key=f'C04.B.{key}', what=what, program=name, replayed=True, _known=kn, **kw))
+
+    def attempt(src, lines0, old_tokens, root, path, cat, opt, trivia, opts0, kpfx):
+        """one edit judged against the token frame; `root` None = a fresh tree of `src`, else the live tree a previous
+        edit left (sequences).  Returns the edited tree when it is consistent (C01) and was judged, else None"""
+        nonlocal ev
+        RESULT = None
+        op, donor = opt[0], opt[1]
+        opts = dict(opts0, **(opt[2] if len(opt) > 2 else {}))
+        if root is None:
+            root = FST(src, 'exec')
+        node = follow(root, path)
+        if not node:
+            return RESULT
+        under_str = False
+        p = node
+        while p is not None:
+            if p.a.__class__.__name__ in ('JoinedStr', 'TemplateStr'):
+                under_str = True
+            p = p.parent
+        if under_str:
+            return RESULT
+        loc = tuple(node.bloc) if cat == 'stmt' else (tuple(node.pars()) if node.pars() else tuple(node.loc))
+        loc = loc[:4]
+        # comments between the element's own grouping parentheses and the element: the parentheses may go, a
+        # comment may not ("no comment is ever lost ... unless selected by the trivia option")
+        own_pars_comments = []
+        if cat == 'expr' and tuple(node.loc)[:4] != loc:
+            il = tuple(node.loc)[:4]
+            for t in old_tokens:
+                if t.type == tokenize.COMMENT:
+                    s_ = (t.start[0] - 1, t.start[1])
+                    if (loc[0], loc[1]) <= s_ <= (loc[2], loc[3]) and not ((il[0], il[1]) <= s_ <= (il[2], il[3])):
+                        own_pars_comments.append(t.string.rstrip())
+        if op == 'remove' and path[-1][1] is None:
+            return RESULT   # deleting an optional single field takes its dependent tokens along (`as e`, `from F`)
+        ev += 1
+        try:
+            if op == 'remove':
+                node.remove(**opts)
+                newloc = None
+            elif op == 'insert':
+                node.parent.put_slice(donor, path[-1][1], path[-1][1], path[-1][0], **opts)
+                loc = None
+            elif op == 'insert_into':     # into an EMPTY block field of this statement (orelse / finalbody)
+                fld = opts.pop('field')
+                node.put_slice(donor, 0, 0, fld, **opts)
+                loc = None
+                path = path + ((fld, 0),)
+            elif op == 'replace':
+                node.replace(donor, **opts)
+            else:
+                node.replace(node.copy(**opts), **opts)
+            if op != 'remove':
+                n2 = follow(root, path)
+                if not n2:
+                    return RESULT
+                newloc = tuple(n2.bloc) if cat == 'stmt' else (tuple(n2.pars()) if n2.pars() else tuple(n2.loc))
+                newloc = newloc[:4]
+                if opts.get('one') is False:   # two elements were spliced in: the extent is their union
+                    p2 = path[:-1] + ((path[-1][0], path[-1][1] + 1),)
+                    n3 = follow(root, p2)
+                    if not n3:
+                        return RESULT
+                    l3 = tuple(n3.pars()) if n3.pars() else tuple(n3.loc)
+                    newloc = (newloc[0], newloc[1], l3[2], l3[3])
+        except Exception:
+            distinct.add(('refused', path, op, donor, trivia, str(opt[2:])))
+            return RESULT
+        distinct.add(('ok', path, op, donor, trivia, str(opt[2:])))
+        key = kpfx + f'{op}@{cat}:{name}:{path}:{donor!r}:trivia={trivia}:{sorted((opt[2] if len(opt) > 2 else {}).items())}'
+        tol = 'docstr' not in opts
+        if c01_violation(root):
+            # tree and source disagree (C01's business), so the new extent is not reliable; what can still be
+            # judged soundly: every token/comment outside the OLD extent must survive, in order, somewhere in
+            # the new text (compared as text: a broken result may not tokenize)
+            o = sig(outside(old_tokens, loc), doc_tolerant=False)
+            allowed = [] if trivia == () or loc is None else allowed_comment_loss(lines0, loc)
+            pos, text, lost = 0, root.src, None
+            for t in o:
+                k = text.find(t, pos)
+                if k < 0:
+                    if t in allowed:
+                        allowed.remove(t)
+                        continue
+                    if '\n' in t:
+                        continue   # multi-line strings may be re-indented
+                    lost = t
+                    break
+                pos = k + len(t)
+            if lost is not None:
+                fail(key + ':lost', f'{op}({donor!r}, trivia={trivia}) at {path}: the token/comment {lost!r} outside '
+                     'the element is gone from the source', src_after=root.src[:300])
+            return RESULT
+        new_tokens = toks(root.src)
+        if new_tokens is None:
+            return RESULT
+        if own_pars_comments and op in ('replace', 'replace_self'):
+            have = [t.string.rstrip() for t in new_tokens if t.type == tokenize.COMMENT]
+            gone = [c for c in own_pars_comments if c not in have]
+            if gone:
+                fail(key + ':own_pars_comment', f'{op}({donor!r}, trivia={trivia}) at {path}: the comment {gone[0]!r} between '
+                     'the element and its own grouping parentheses is gone', src_after=root.src[:300])
+        o = sig(outside(old_tokens, loc), doc_tolerant=tol)
+        n = sig(outside(new_tokens, newloc), doc_tolerant=tol)
+        allowed = [] if trivia == () or loc is None else allowed_comment_loss(lines0, loc)
+        if not is_subsequence_with_loss(o, n, allowed):
+            # find first difference for the message
+            k = 0
+            while k < min(len(o), len(n)) and o[k] == n[k]:
+                k += 1
+            fail(key + ':tokens', f'{op}({donor!r}, trivia={trivia}) at {path}: tokens/comments outside the element '
+                 f'changed: old ...{o[max(0, k - 2):k + 3]} new ...{n[max(0, k - 2):k + 3]}',
+                 src_after=root.src[:300])
+            return RESULT
+        if loc is None:
+            return RESULT
+        # whole lines outside the element's line range are byte-identical (non-blank ones, in order)
+        kw = ('else', 'elif', 'finally')   # block keywords the move itself may add / remove / rewrite
+        before = [l for l in lines0[:loc[0]] if l.strip() and not l.strip().startswith(kw)]
+        after = [l for l in lines0[loc[2] + 1:] if l.strip() and not l.strip().startswith(kw)]
+        nl = [l for l in root.src.split('\n') if l.strip() and not l.strip().startswith(kw)]
+        if trivia == () or cat != 'stmt':
+            keep_b = before
+        else:
+            lost = set(allowed)
+            keep_b = [l for l in before if l.strip() not in lost]
+        if cat == 'stmt' and nl[:len(keep_b)] != keep_b and not any(';' in l for l in lines0[loc[0]:loc[2] + 1]):
+            fail(key + ':lines_before', f'{op}({donor!r}) at {path}: a line before the element changed',
+                 src_after=root.src[:300])
+        elif cat == 'stmt' and after and nl[-len(after):] != after:
+            # the element's last line may hold other code (`a; b`): only lines strictly after it are compared
+            fail(key + ':lines_after', f'{op}({donor!r}) at {path}: a line after the element changed: '
+                 f'{[x for x, y in zip(nl[-len(after):], after) if x != y][:2]}', src_after=root.src[:300])
+        if len(samples) < 1:
+            samples.append({'program': name, 'path': [list(x) for x in path], 'op': op, 'donor': donor,
+                            'trivia': trivia})
+        return root
 
     for path, cat in targets:
         for trivia in ((), None):   # () = ('none', 'none'): nothing but the element itself may go
@@ -137,6 +276,11 @@ def work(name, src, payload):
             if cat == 'stmt' and path[-1][1] is not None:
                 ops += [('insert', d, o) for d in ('x = 1', 'if q:\n    r') for o in ({}, {'docstr': False},
                                                                                  {'docstr': 'strict'})]
+            if cat == 'stmt':
+                n0 = follow(root0, path)
+                for fld in ('orelse', 'finalbody'):
+                    if n0 and getattr(n0.a, fld, None) == [] and n0.a.__class__.__name__ in ('If', 'For', 'AsyncFor', 'While', 'Try', 'TryStar'):
+                        ops += [('insert_into', 'zz = 1', {'field': fld})]
             if cat == 'expr' and path[-1][1] is not None:
                 ops += [('replace', 'f(\n  1,\n  2)[\n 0]', {})]
                 par = follow(FST(src, 'exec'), path[:-1]) if len(path) > 1 else None
@@ -145,130 +289,48 @@ def work(name, src, payload):
                     # a two-line slice of comma-separated elements: an unenclosed statement needs continuation repair
                     ops += [('replace', 'zz[1],\nyy', {'one': False})]
             for opt in ops:
-                op, donor = opt[0], opt[1]
-                opts = dict(opts0, **(opt[2] if len(opt) > 2 else {}))
-                root = FST(src, 'exec')
-                node = follow(root, path)
-                if not node:
+                r1 = attempt(src, lines0, old_tokens, None, path, cat, opt, trivia, opts0, '')
+                # sequences of edits: a second edit on the LIVE tree the first one left (stale positions or caches of
+                # the first edit show up as damage outside the second element)
+                if r1 is None or (quick and rnd.random() > 0.15):
                     continue
-                under_str = False
-                p = node
-                while p is not None:
-                    if p.a.__class__.__name__ in ('JoinedStr', 'TemplateStr'):
-                        under_str = True
-                    p = p.parent
-                if under_str:
+                src1 = r1.src
+                toks1 = toks(src1)
+                if toks1 is None:
                     continue
-                loc = tuple(node.bloc) if cat == 'stmt' else (tuple(node.pars()) if node.pars() else tuple(node.loc))
-                loc = loc[:4]
-                # comments between the element's own grouping parentheses and the element: the parentheses may go, a
-                # comment may not ("no comment is ever lost ... unless selected by the trivia option")
-                own_pars_comments = []
-                if cat == 'expr' and tuple(node.loc)[:4] != loc:
-                    il = tuple(node.loc)[:4]
-                    for t in old_tokens:
-                        if t.type == tokenize.COMMENT:
-                            s_ = (t.start[0] - 1, t.start[1])
-                            if (loc[0], loc[1]) <= s_ <= (loc[2], loc[3]) and not ((il[0], il[1]) <= s_ <= (il[2], il[3])):
-                                own_pars_comments.append(t.string.rstrip())
-                if op == 'remove' and path[-1][1] is None:
-                    continue   # deleting an optional single field takes its dependent tokens along (`as e`, `from F`)
-                ev += 1
+                cands = []
+                for p2, f2 in node_paths(r1):
+                    if p2 and isinstance(f2.a, ast.stmt):
+                        cands.append((p2, 'stmt'))
+                    elif p2 and isinstance(f2.a, ast.expr) and not isinstance(f2.a, (ast.Starred, ast.Slice)):
+                        cands.append((p2, 'expr'))
+                # second targets whose own extent depends on what the first edit had to shift: the ancestors of the first
+                # target, its following sibling, everything that starts later on the same first line
                 try:
-                    if op == 'remove':
-                        node.remove(**opts)
-                        newloc = None
-                    elif op == 'insert':
-                        node.parent.put_slice(donor, path[-1][1], path[-1][1], path[-1][0], **opts)
-                        loc = None
-                    elif op == 'replace':
-                        node.replace(donor, **opts)
-                    else:
-                        node.replace(node.copy(**opts), **opts)
-                    if op != 'remove':
-                        n2 = follow(root, path)
-                        if not n2:
-                            continue
-                        newloc = tuple(n2.bloc) if cat == 'stmt' else (tuple(n2.pars()) if n2.pars() else tuple(n2.loc))
-                        newloc = newloc[:4]
-                        if opts.get('one') is False:   # two elements were spliced in: the extent is their union
-                            p2 = path[:-1] + ((path[-1][0], path[-1][1] + 1),)
-                            n3 = follow(root, p2)
-                            if not n3:
-                                continue
-                            l3 = tuple(n3.pars()) if n3.pars() else tuple(n3.loc)
-                            newloc = (newloc[0], newloc[1], l3[2], l3[3])
+                    n1 = follow(r1, path) or None
                 except Exception:
-                    distinct.add(('refused', path, op, donor, trivia, str(opt[2:])))
-                    continue
-                distinct.add(('ok', path, op, donor, trivia, str(opt[2:])))
-                key = f'{op}@{cat}:{name}:{path}:{donor!r}:trivia={trivia}:{sorted((opt[2] if len(opt) > 2 else {}).items())}'
-                tol = 'docstr' not in opts
-                if c01_violation(root):
-                    # tree and source disagree (C01's business), so the new extent is not reliable; what can still be
-                    # judged soundly: every token/comment outside the OLD extent must survive, in order, somewhere in
-                    # the new text (compared as text: a broken result may not tokenize)
-                    o = sig(outside(old_tokens, loc), doc_tolerant=False)
-                    allowed = [] if trivia == () or loc is None else allowed_comment_loss(lines0, loc)
-                    pos, text, lost = 0, root.src, None
-                    for t in o:
-                        k = text.find(t, pos)
-                        if k < 0:
-                            if t in allowed:
-                                allowed.remove(t)
-                                continue
-                            if '\n' in t:
-                                continue   # multi-line strings may be re-indented
-                            lost = t
+                    n1 = None
+                l1 = tuple(n1.loc)[:2] if n1 is not None and n1.loc is not None else None
+                anc = {path[:k] for k in range(1, len(path))}
+                nxt = path[:-1] + ((path[-1][0], path[-1][1] + 1),) if path[-1][1] is not None else None
+                near = []
+                for p2, c2 in cands:
+                    try:
+                        f2 = follow(r1, p2) or None
+                    except Exception:
+                        f2 = None
+                    if p2 in anc or p2 == nxt or (l1 and f2 is not None and f2.loc is not None and f2.loc[0] == l1[0]
+                                                   and (f2.loc[0], f2.loc[1]) > l1 and p2[:len(path)] != path):
+                        near.append((p2, c2))
+                near = near or [c for c in cands if c[0][:1] == path[:1]] or cands
+                for p2, c2 in (rnd.sample(near, 3) if len(near) > 3 else near):
+                    for opt2 in (('remove', None), ('replace', DONORS[c2][0])):
+                        # replay the first edit on a fresh tree so that every second edit starts from the same live state
+                        r2 = attempt(src, lines0, old_tokens, None, path, cat, opt, trivia, opts0, 'SEQ-FIRST:')
+                        if r2 is None:
                             break
-                        pos = k + len(t)
-                    if lost is not None:
-                        fail(key + ':lost', f'{op}({donor!r}, trivia={trivia}) at {path}: the token/comment {lost!r} outside '
-                             'the element is gone from the source', src_after=root.src[:300])
-                    continue
-                new_tokens = toks(root.src)
-                if new_tokens is None:
-                    continue
-                if own_pars_comments and op in ('replace', 'replace_self'):
-                    have = [t.string.rstrip() for t in new_tokens if t.type == tokenize.COMMENT]
-                    gone = [c for c in own_pars_comments if c not in have]
-                    if gone:
-                        fail(key + ':own_pars_comment', f'{op}({donor!r}, trivia={trivia}) at {path}: the comment {gone[0]!r} between '
-                             'the element and its own grouping parentheses is gone', src_after=root.src[:300])
-                o = sig(outside(old_tokens, loc), doc_tolerant=tol)
-                n = sig(outside(new_tokens, newloc), doc_tolerant=tol)
-                allowed = [] if trivia == () or loc is None else allowed_comment_loss(lines0, loc)
-                if not is_subsequence_with_loss(o, n, allowed):
-                    # find first difference for the message
-                    k = 0
-                    while k < min(len(o), len(n)) and o[k] == n[k]:
-                        k += 1
-                    fail(key + ':tokens', f'{op}({donor!r}, trivia={trivia}) at {path}: tokens/comments outside the element '
-                         f'changed: old ...{o[max(0, k - 2):k + 3]} new ...{n[max(0, k - 2):k + 3]}',
-                         src_after=root.src[:300])
-                    continue
-                if loc is None:
-                    continue
-                # whole lines outside the element's line range are byte-identical (non-blank ones, in order)
-                kw = ('else', 'elif', 'finally')   # block keywords the move itself may add / remove / rewrite
-                before = [l for l in lines0[:loc[0]] if l.strip() and not l.strip().startswith(kw)]
-                after = [l for l in lines0[loc[2] + 1:] if l.strip() and not l.strip().startswith(kw)]
-                nl = [l for l in root.src.split('\n') if l.strip() and not l.strip().startswith(kw)]
-                if trivia == () or cat != 'stmt':
-                    keep_b = before
-                else:
-                    lost = set(allowed)
-                    keep_b = [l for l in before if l.strip() not in lost]
-                if cat == 'stmt' and nl[:len(keep_b)] != keep_b and not any(';' in l for l in lines0[loc[0]:loc[2] + 1]):
-                    fail(key + ':lines_before', f'{op}({donor!r}) at {path}: a line before the element changed',
-                         src_after=root.src[:300])
-                elif cat == 'stmt' and after and nl[-len(after):] != after:
-                    # the element's last line may hold other code (`a; b`): only lines strictly after it are compared
-                    fail(key + ':lines_after', f'{op}({donor!r}) at {path}: a line after the element changed: '
-                         f'{[x for x, y in zip(nl[-len(after):], after) if x != y][:2]}', src_after=root.src[:300])
-                if len(samples) < 1:
-                    samples.append({'program': name, 'path': [list(x) for x in path], 'op': op, 'donor': donor,
-                                    'trivia': trivia})
+                        attempt(src1, src1.split('\n'), toks1, r2, p2, c2, opt2, trivia, opts0,
+                                f'seq[{opt[0]}({opt[1]!r})@{path}]:')
     return {'evaluations': ev, 'distinct': list(distinct), 'failures': failures, 'samples': samples, 'counts': {}}
 
 
